@@ -84,9 +84,10 @@ void ezc3d::DataNS::Points3dNS::Points::point(const ezc3d::DataNS::Points3dNS::P
     if (idx == SIZE_MAX)
         _points.push_back(point);
     else{
-        if (idx >= nbPoints())
+        ezc3d::DataNS::Points3dNS::Point copy(point); // made before resizing: the element sent may be one of this container
+        if (idx >= _points.size())
             _points.resize(idx+1);
-        _points[idx] = point;
+        _points[idx] = copy;
     }
 }
 
